@@ -206,6 +206,8 @@ Definition init_thread (s : list rcall) (faults : list nat) (b : option (list (l
   norm {| pc := PEnd; script := s; fw := fwd0; ncall := 0; flt := faults; fb := b |}.
 
 Definition finished (th : thread) : bool := match pc th with PEnd => true | _ => false end.
+(* the thread's next operation on a shared object is a call on the target or the release *)
+Definition in_block (th : thread) : bool := match pc th with PRel _ | PCall _ _ _ => true | _ => false end.
 
 (* ---------- configurations ---------- *)
 Record config := { sem : option tid; glog : list (tid * gev); ths : list thread }.
